@@ -341,7 +341,13 @@ def run(ctx: Ctx):
             continue
         n_idx += 1
         name = "daily" if per == 86400 else "weekly"
-        diffs = [x for x in ast.walk(r.value) if isinstance(x, ast.BinOp) and isinstance(x.op, ast.Sub)
+        exprs, seen_n = [r.value], set()
+        for e_ in exprs:
+            for x in ast.walk(e_):
+                if isinstance(x, ast.Name) and x.id not in seen_n and len(exprs) < 12:
+                    seen_n.add(x.id)
+                    exprs += [v for v in res_i(x) if kind(v) == "?"]
+        diffs = [x for e_ in exprs for x in ast.walk(e_) if isinstance(x, ast.BinOp) and isinstance(x.op, ast.Sub)
                  and {kind(x.left), kind(x.right)} <= {"D", "DT", "ORD"}]
         if not diffs:
             from ..model import Inconclusive
